@@ -349,6 +349,9 @@ def _execute(p, world, term, out, res):
             if d is not None:
                 d.update({"h": h, "w": w, "expected_screen": gen.show_grid(exp), "got_screen": gen.show_grid(got)})
                 _violate(res, "screen_differs", si, d)
+            if term.cursor_visible != (not cfg["hide_cursor"]):
+                # hide_cursor "hides cursor while in context": off -> the cursor is shown again after every render
+                _violate(res, "cursor_visibility", si, {"hide_cursor": cfg["hide_cursor"], "visible": term.cursor_visible})
             if (term.r, term.c) != tuple(st["cursor"]) or term.pending:
                 _violate(res, "cursor_position", si, {"expected": st["cursor"], "got": [term.r, term.c],
                                                        "pending_wrap": term.pending})
